@@ -5,7 +5,7 @@ run and never writes it: a theorem that disappears or whose statement changes wi
 makes the check report the property as no longer shown."""
 import glob, json, os, sys
 from importlib.machinery import SourceFileLoader
-chk = SourceFileLoader("vcheck", "/verif/bin/check").load_module()
+chk = SourceFileLoader("vcheck", os.path.join(os.path.dirname(os.path.dirname(os.path.abspath(__file__))), "bin", "check")).load_module()
 cur = {}
 for f in sorted(glob.glob(os.path.join(chk.COQ, "Properties", "C*.v"))):
     pid = os.path.basename(f)[:-2]
